@@ -10,7 +10,8 @@ Import ListNotations.
 Inductive hlabel : Set :=
 | HError | HData | HAccept | HFinish | HEnding
 | HConnectRet (ok : bool) | HRestartRet (ok : bool)
-| HAcceptTimer | HCompleteTimer.
+| HAcceptTimer | HCompleteTimer
+| HOther.           (* an announcement the monitor has no business with: queued data, vouchers, pauses, ... *)
 
 (* back-off mode of the harness configuration: 0 none, 1 short (always waited out as part of
    the step), 2 long (only ever ended by the cancelled context) *)
@@ -44,6 +45,7 @@ Definition labels_of (h : hlabel) : list mlabel :=
   | HRestartRet ok => [LRestartReturns ok]
   | HAcceptTimer => [LAcceptTimerFires]
   | HCompleteTimer => [LCompleteTimerFires]
+  | HOther => []
   end.
 
 Definition hstep (c : cfg) (short : bool) (m : mon) (h : hlabel) : mon * list mout :=
